@@ -56,7 +56,15 @@ LDL = {
   "chain6": (la.xml(la.chain(6)), (0, 0), 1),
   "comb5": (la.xml("<body pos='.1 0 .3'>" + la._hinge(0) + "<body pos='0 .2 .1'>" + la._hinge(1) + "<body pos='0 .3 0'>" + la._hinge(2) + "<body pos='0 .3 .1'>" + la._hinge(3) + "</body></body><body pos='.2 0 .3'>" + la._hinge(4) + "</body></body></body>"), (0, 0), 1),
 }
-FAMILY = {"chol": CHOL, "ldl": LDL}
+# tile-Cholesky blocks (trees that are neither chains nor diagonal, or have 7..64 dofs) interleaved with scalar / compact blocks
+TILE = {
+  "fork3+chain2+fork3": (la.xml(la.fork(0), la.chain(2, 3), la.fork(5)), None, 2),
+  "fork3+chain2+ytree4+slide+fork3+ytree4": (la.xml(la.fork(0), la.chain(2, 3), la.ytree(5), la.slide1(9), la.fork(10), la.ytree(13)), None, 2),
+  "chain7+chain3+chain7": (la.xml(la.chain(7), la.chain(3, 7), la.chain(7, 10)), None, 2),
+  "chain8+chain2+chain7+chain8": (la.xml(la.chain(8), la.chain(2, 8), la.chain(7, 10), la.chain(8, 17)), None, 2),
+  "tile1+tile2+tile1": (la.xml(la.slide1(0), la.chain(2, 1), la.slide1(3)), (0, 64), 2),
+}
+FAMILY = {"chol": CHOL, "ldl": LDL, "tile": TILE}
 MULM = {
   "chain3": (la.xml(la.chain(3)), None, 2),
   "fork3": (la.xml(la.fork()), None, 2),
@@ -122,22 +130,30 @@ class Param:
       self.sym[name] = R(name)
       return self.sym[name]
 
+    # tile-Cholesky trees: symbolically the stored entries are free symbols (the tile built-ins are contracts, no SPD
+    # structure is needed); numerically they are drawn as U^T D U like sparse trees (closed under any tree pattern)
+    ldl = lambda i: kinds[i] == "ldl" or (kinds[i] == "tile" and num)
+    self.T = {}
     for (i, j) in st:
-      if kinds[i] == "ldl":
+      if kinds[i] == "tile" and not num:
+        self.T[(i, j)] = mk(f"M{w}_{i}_{j}", None)
+      elif ldl(i):
         self.U[(i, j)] = 1.0 if i == j else mk(f"U{w}_{i}_{j}", offd)
       else:
         self.L[(i, j)] = mk(f"L{w}_{i}_{j}", diag if i == j else offd)
     for k in range(nv):
-      if kinds[k] == "ldl":
+      if ldl(k):
         self.D[k] = mk(f"D{w}_{k}", diag)
-      if not num:
+      if not num and kinds[k] != "tile":
         pv = self.D[k] if kinds[k] == "ldl" else self.L[(k, k)]
         self.facts.append(pv > 0)
         self.positive.append(pv.decl().name())
     self.M = [0.0] * mjm.nC
     for (i, j), a in st.items():
       acc = 0.0
-      if kinds[i] == "ldl":
+      if (i, j) in self.T:
+        acc = self.T[(i, j)]
+      elif ldl(i):
         for k in range(i, nv):
           if (k, i) in st and (k, j) in st:
             acc = arith("+", acc, arith("*", arith("*", self.U[(k, i)], self.D[k]), self.U[(k, j)]))
@@ -158,9 +174,9 @@ def closed(mjm, kinds):
     for j in range(i):
       if (i, j) in st:
         continue
-      if kinds[i] == "ldl" and any((k, i) in st and (k, j) in st for k in range(i, nv)):
+      if kinds[i] in ("ldl", "tile") and any((k, i) in st and (k, j) in st for k in range(i, nv)):
         return False
-      if kinds[i] != "ldl" and any((i, k) in st and (j, k) in st for k in range(j + 1)):
+      if kinds[i] not in ("ldl", "tile") and any((i, k) in st and (j, k) in st for k in range(j + 1)):
         return False
   return True
 
@@ -194,7 +210,7 @@ def sym_solve(m, d, Mvals, y, how, tag=""):
   Mc.d0 = [list(v) for v in Mc.d]
   x = host.sym_array(f"x{tag}", (nworld, nv), wp.float32)
   out = {"M": Mc, "dM": Mc, "x": x.ref.cell}
-  with la.HostRun(mode="exec") as hr:
+  with la.HostRun(mode="exec", exec_tiles=True) as hr:
     if how == "split":
       smooth.factor_m(m, d2)
       smooth.solve_m(m, d2, x, y)
@@ -324,8 +340,8 @@ def unit_solve(fam, name, scratch=False, leftinv=False):
       ctx.error(f"model {name}: {err}")
       return
     kinds = tree_kinds(mjm, m)
-    if "tile" in kinds:
-      ctx.error(f"model {name} has a tile-Cholesky block (outside this check)")
+    if ("tile" in kinds) != (fam == "tile"):
+      ctx.error(f"model {name}: tile-Cholesky blocks {'expected' if fam == 'tile' else 'not expected'} in family {fam} (layout {kinds})")
       return
     if fam == "ldl" and "ldl" not in kinds:
       ctx.error(f"model {name} has no sparse L^T D L region")
@@ -346,8 +362,13 @@ def unit_solve(fam, name, scratch=False, leftinv=False):
       "Cholesky / compact trees: M = L L^T, L lower triangular on the stored pattern with L_ii > 0; sparse trees: M = U^T D U, U unit lower triangular on MuJoCo's stored (dof, ancestor) pattern, D > 0 - i.e. an arbitrary SPD matrix with the model's sparsity",
       "right-hand side b and the previous contents of qLD / qLDiagInv / x arbitrary",
       "floats are exact reals; sqrt(v) is the s >= 0 with s^2 = v",
-      "index tables (qLD_block_adr, M_tiles, qLD_updates, qLD_all_updates, qLD_level_offsets) are what the real put_model builds for the model",
+      "index tables (qLD_block_adr, M_tiles incl. the gather table elemid, qLD_updates, qLD_all_updates, qLD_level_offsets) are what the real put_model builds for the model",
     )
+    if fam == "tile":
+      ctx.assume(
+        "tile-Cholesky blocks, DATAFLOW level: the stored entries of M are free symbols; wp.tile_cholesky_inplace / wp.tile_cholesky_solve (fill_mode 'upper') are uninterpreted functions CHOL / CHOLSOLVE of the upper triangle of their tile arguments with the contract 'CHOLSOLVE(CHOL(A), y) solves A x = y' (A symmetric positive definite); tile_load_indexed reads 0 for an index outside the array - all three validated numerically against the real Warp built-ins in unit tile/contracts",
+        "one block = one lane (Warp CPU backend); lane schedules of a wider GPU block are not modelled",
+      )
     y = host.sym_array("y", (nworld, nv), wp.float32)
     b = lambda w: [y.ref.cell.d0[0][w * nv + i] for i in range(nv)]
     par = [Param(mjm, kinds, w) for w in range(nworld)]
@@ -389,10 +410,28 @@ def unit_solve(fam, name, scratch=False, leftinv=False):
         ctx.notes.append(f"{h}: no closed form for {len(ch.failed)} intermediates {ch.failed[:6]} (left to the solver)")
       for w in range(nworld):
         xs = [flat(r["x"], w, i) for i in range(nv)]
+        if fam == "tile":
+          # (a)+(b)+(c): x of a tile block = CHOLSOLVE(CHOL(block of M, dense from CSR), b at the block's dofs): provable only
+          # if the factor kernel gathered exactly block b of M, the solve kernel loaded cell by cell what the factor kernel
+          # stored for block b, and rhs / x are gathered / scattered at block b's dofs
+          Dm = la.dense_of(mjm, Mvals[w])
+          for start, size in [(int(a_), int(n_)) for a_, n_ in zip(mjm.tree_dofadr, mjm.tree_dofnum) if n_ > 0]:
+            if kinds[start] != "tile":
+              continue
+            ups = [core.to_z3(Dm[start + i][start + j], "real") for i in range(size) for j in range(i, size)]
+            fac = [la.chol_app(size, i, j, ups) for i in range(size) for j in range(i, size)]
+            rhsb = [core.to_z3(b(w)[start + i], "real") for i in range(size)]
+            for rr in range(size):
+              ch.prove(ctx, f"{h}/w{w}/tile-dataflow/x[{start + rr}]", xs[start + rr] == la.cholsolve_app(size, rr, fac, rhsb), replay=rp(f"{h}.flow{start + rr}"), desc=f"{name} ({h}): x[{start + rr}] is not CHOLSOLVE(CHOL(M block of dofs {start}..{start + size - 1}), b at these dofs): the factor tile the solve loads is not what the factor kernel stored for this block, or the gathered matrix / rhs / scattered x use other cells")
         if wv is not None:
           for i in range(nv):
             ch.prove(ctx, f"{h}/w{w}/x(Mw)=w[{i}]", cmp("==", xs[i], wv[w][i]), replay=rp(f"{h}.linv{i}"), desc=f"{name} ({h}, {kinds[i]} block): x[{i}] for the right-hand side M w is not w[{i}]")
         for i, prods, rhs in residual_rows(mjm, Mvals[w], xs, b(w)):
+          if fam == "tile" and ctx.violations:
+            # the unit already has a reproduced violation: counterexample search over products of uninterpreted CHOLSOLVE
+            # terms can be slow, and nothing more is needed to fail the unit
+            ctx.notes.append(f"{h}/w{w}: remaining row queries skipped after a reproduced violation")
+            break
           ch.prove_sum(ctx, f"{h}/w{w}/Mx=b[{i}]", prods, rhs, replay=rp(f"{h}.row{i}"), desc=f"{name} ({h}, {kinds[i]} block): row {i} of M x = b fails for the returned x")
       sessM = ctx.session(facts)
       ctx.prove(sessM, f"{h}/M-untouched", And(unchanged(r["dM"]), unchanged(r["M"])), replay=rp(f"{h}.M"), desc=f"{name} ({h}): the factorisation modifies its input matrix")
@@ -409,6 +448,60 @@ def unit_solve(fam, name, scratch=False, leftinv=False):
         both.prove(ctx, f"same/w{w}/qLD[{k}]", cmp("==", flat(a["qLD"], w, k), flat(c["qLD"], w, k)), replay=rp(f"same.q{k}"), desc=f"{name}: factor_m and factor_solve_i leave different qLD[{k}]")
 
   return (f"{fam}/{name}", run)
+
+
+# ------------------------------------------------------------------------------------------------ tile built-in contracts
+
+
+def unit_tile_contracts(ctx):
+  """side condition of the tile units (not a solver claim about mujoco_warp): the contracts used for the Warp tile built-ins
+  hold for the REAL built-ins on the CPU device"""
+  n = 3
+
+  @wp.kernel
+  def c21_tile_probe(A: wp.array2d[float], idx: wp.array[int], src: wp.array[float], y: wp.array[float], Uin: wp.array2d[float], U: wp.array2d[float], g: wp.array[float], x: wp.array[float], x2: wp.array[float]):
+    t = wp.tile_load(A, shape=(3, 3))
+    wp.tile_cholesky_inplace(t, fill_mode="upper")
+    wp.tile_store(U, t)
+    it = wp.tile_load(idx, shape=(4,))
+    wp.tile_store(g, wp.tile_load_indexed(src, it, shape=(4,)))
+    rhs = wp.tile_load(y, shape=(3,))
+    wp.tile_store(x, wp.tile_cholesky_solve(t, rhs, fill_mode="upper"))
+    t2 = wp.tile_load(Uin, shape=(3, 3))
+    wp.tile_store(x2, wp.tile_cholesky_solve(t2, rhs, fill_mode="upper"))
+
+  ctx.encode(c21_tile_probe)
+  ctx.bound(note="numeric validation of the tile built-in contracts on a 3x3 tile, Warp CPU device")
+  sess = ctx.session([])
+  ctx.reach(sess, "twin:contracts", True)
+  rng = np.random.default_rng(ctx.seed)
+  Lf = la.rnd_spd_factor(rng, n)
+  A = Lf @ Lf.T
+  yv = rng.uniform(-1, 1, n)
+  src = rng.uniform(1, 2, 5)
+  idx = np.array([2, 5, 0, 7], dtype=np.int32)  # 5 = len(src) (the 'absent entry' index of the gather table), 7 further out
+
+  def run(Amat, Uin):
+    f = lambda a, dt=float: wp.array(np.asarray(a, dtype=np.float32 if dt is float else np.int32), dtype=dt)
+    U, g, x, x2 = wp.zeros((n, n), dtype=float), wp.zeros(4, dtype=float), wp.zeros(n, dtype=float), wp.zeros(n, dtype=float)
+    wp.launch_tiled(c21_tile_probe, dim=1, inputs=[f(Amat), f(idx, int), f(src), f(yv), f(Uin)], outputs=[U, g, x, x2], block_dim=32, device="cpu")
+    return U.numpy().astype(float), g.numpy().astype(float), x.numpy().astype(float), x2.numpy().astype(float)
+
+  U0, g0, x0, _ = run(A, np.eye(n))
+  ok = lambda a, b: np.allclose(a, b, rtol=1e-4, atol=1e-5)
+  if not ok(U0.T @ U0, A) or not ok(np.tril(U0, -1), 0):
+    ctx.error(f"tile_cholesky_inplace(fill_mode='upper') contract (U^T U = A, lower triangle zero) fails on the real built-in: U = {U0.tolist()}")
+  Ap = A + np.tril(rng.uniform(1, 2, (n, n)), -1)  # garbage below the diagonal
+  U1, _, _, _ = run(Ap, np.eye(n))
+  if not ok(U1, U0):
+    ctx.error("tile_cholesky_inplace(fill_mode='upper') depends on the lower triangle of its argument (contract: upper triangle only)")
+  if not ok(g0, [src[2], 0.0, src[0], 0.0]):
+    ctx.error(f"tile_load_indexed contract (index outside the array reads 0) fails on the real built-in: {g0.tolist()}")
+  if not ok(A @ x0, yv):
+    ctx.error(f"tile_cholesky_solve(CHOL(A), y) does not solve A x = y on the real built-in: residual {(A @ x0 - yv).tolist()}")
+  _, _, _, x2 = run(A, U0 + np.tril(rng.uniform(1, 2, (n, n)), -1))
+  if not ok(x2, x0):
+    ctx.error("tile_cholesky_solve(fill_mode='upper') depends on the lower triangle of the factor tile (contract: upper triangle only)")
 
 
 # ------------------------------------------------------------------------------------------------ mul_m
@@ -513,6 +606,8 @@ def main(tier, seed, only=None):
   ldl = ["chain2", "chain3", "fork3", "ytree4", "block+ldl"] + (["fork3+slide+chain2", "chain4", "chain5", "ytree4+fork3", "chain6", "comb5"] if thorough else [])
   units = [unit_solve("chol", n, scratch=(n == "chain3"), leftinv=(n in ("chain5", "chain6"))) for n in chol]
   units += [unit_solve("ldl", n, scratch=(n in ("fork3", "block+ldl"))) for n in ldl]
+  tile = ["fork3+chain2+fork3", "fork3+chain2+ytree4+slide+fork3+ytree4", "chain7+chain3+chain7", "tile1+tile2+tile1"] + (["chain8+chain2+chain7+chain8"] if thorough else [])
+  units += [("tile/contracts", unit_tile_contracts)] + [unit_solve("tile", n, scratch=(n == "fork3+chain2+fork3")) for n in tile]
   units += [unit_mulm(n) for n in MULM]
   if only:
     units = [u for u in units if any(o in u[0] for o in only)]
